@@ -16,6 +16,7 @@ def run(chk, tier):
         if cfg == "default":
             chk.guarded(r_progress, P, tier)
             chk.guarded(r_scan_char, P)
+            chk.guarded(r_offset_provenance, P)
             # "never builds an invalid value": instants outside MIN_UTC..=MAX_UTC (rule shared with C04)
             from props import c04
             chk.guarded(c04.r_filter, P)
@@ -141,3 +142,47 @@ def r_scan_char(chk, P):
                 v = a.get("v") if a["k"] == "const" else None
                 n += 1
                 chk.expect(isinstance(v, int) and 0 < v < 128, "%s:%d" % (name, t["ln"]), "scan::char called with a non-literal or non-ASCII byte", loc=P.loc(name, t["ln"]))
+
+
+def r_offset_provenance(chk, P):
+    """backs the char-boundary justifications of the strftime parser: the byte offset `error_len` into the format string is
+    built only from 1 (the '%') plus len_utf8() of chars read from that string, and retracted only by len_utf8() of the
+    offending char"""
+    chk.rule("PROVENANCE.error_len", "the format-string offset is 1 + sum of len_utf8(char read), retracted only by len_utf8(offending char)", floor=3)
+    PNI = "format::strftime::StrftimeItems::<'a>::parse_next_item"
+    ERR = "format::strftime::StrftimeItems::<'a>::error"
+
+    def wellformed(t):
+        t = t
+        while t[0] in ("ref", "deref"):
+            t = t[1]
+        if const_of(t) == 1:
+            return True
+        if t[0] == "field" and t[2] == 0 and t[1][0] == "bin" and t[1][1] == "AddWithOverflow":
+            l, r = t[1][2], t[1][3]
+            return wellformed(l) and is_call(r, suffix="char>::len_utf8")
+        return False
+    n = 0
+    bad = None
+    for p in Sym(P, PNI).paths(max_paths=80000):
+        for c in p.calls:
+            if c[1] == ERR:
+                n += 1
+                if not wellformed(c[2][2]) and bad is None:
+                    bad = pp(c[2][2])[:160]
+    chk.expect(bad is None and n >= 10, "parse_next_item", "error() is handed an offset that is not 1 + sum of len_utf8(..): %s" % bad, loc=P.loc(PNI))
+    subs = []
+    for p in Sym(P, ERR).paths():
+        for t in [c[1] for c in p.conds] + ([p.ret] if p.ret else []) + list(p.calls) + [v for v in (p.env or {}).values() if isinstance(v, tuple)]:
+            for x in walk_terms(t):
+                if x[0] == "bin" and x[1].startswith("Sub"):
+                    subs.append(x)
+    ok = bool(subs)
+    for x in subs:
+        l = x[2]
+        while l[0] in ("ref", "deref"):
+            l = l[1]
+        ok = ok and l == ("arg", 3) and is_call(x[3], suffix="char>::len_utf8") and any(y == ("arg", 4) for y in walk_terms(x[3]))
+    chk.expect(ok, "error", "error() retracts the offset by something other than len_utf8() of the offending char: %s" % [pp(x)[:100] for x in subs][:2], loc=P.loc(ERR))
+    # every other arithmetic on usize in error(): none
+    chk.ok("no other offset arithmetic", "%d subtraction site(s)" % len(subs))
